@@ -687,7 +687,8 @@ DATACORE_BIT_RULE = ("datacorebit: sessions of 25-95 bitmap commands (setbit / s
     "and `binv` lines put BITCOUNT key start end next to the number of offsets the session ever tried to set (plus the bits of every string stored under the name) that lie in the byte range and whose GETBIT is 1 (Go-side C09 oracle), "
     "`bchk` lines ask GETBIT for the bit a well-formed SETBIT just wrote (Go-side C08 oracle get-after-set, skipped while the meta carries an expiry); "
     "non-trivial = answered without error class; distinct = distinct op lines")
-for _p, _cls, _spec, _q, _t in (('C08', '(get-after-set:|hang|harness)', True, 1, 2), ('C09', 'count-enum-mismatch:', True, 1, 2), ('C11', '(panic|error-changed-state|proposed-and-|no-reply|hang|proposal-count)', False, 1, 1)):
+for _p, _cls, _spec, _q, _t in (('C08', '(get-after-set:|panic|hang|harness)', True, 1, 2), ('C09', '(count-enum-mismatch:|panic)', True, 1, 2), ('C10', '(expired-visible|resurrection|ttl-|panic)', True, 1, 1),
+                                 ('C11', '(panic|error-changed-state|proposed-and-|no-reply|hang|proposal-count)', False, 1, 1)):
     _pc = dict(name='datacorebit', quick_seeds=_q, thorough_seeds=_t, classes=_cls)
     if _spec:
         _pc['spec'] = True
@@ -696,25 +697,29 @@ for _p, _cls, _spec, _q, _t in (('C08', '(get-after-set:|hang|harness)', True, 1
     CHECKS[_p]['rule'] = CHECKS[_p]['rule'] + ' || ' + DATACORE_BIT_RULE
 CHECKS['C08']['props'] = CHECKS['C08']['props'] + ['ZanVerif.Props.C08Bit']
 CHECKS['C09']['props'] = CHECKS['C09']['props'] + ['ZanVerif.Props.C09Bit']
+CHECKS['C10']['props'] = CHECKS['C10']['props'] + ['ZanVerif.Props.C08Bit']
 CHECKS['C12']['props'] = CHECKS['C12']['props'] + ['ZanVerif.Props.C12Bit']
 CHECKS['C12']['gens'] = CHECKS['C12']['gens'] + ['Bit']
 _BIT_TRUST = ["bitmap model: model domain = table name and key part non-empty, keys inside the server's limits (an EMPTY key part is outside: finding C11-setbit-empty-keypart); the table key counter, slow log / metrics and the time index BEXPIRE writes under local_deletion are not modelled (BEXPIRE is generated under the value-header layout only); "
               "reads use the wall clock in the code and the `now=` of the session in the model (same expiry regime, as in datacorettl); KV commands on bitmap names always close their apply event (DEL reads the committed store only)"]
-_BIT_PARTIAL = ["bitmap: BitCountV2 AS THE CODE IS violates C09 (known findings C09-bitcount-counts-behind-end, C11-bitcount-slice-panic): the model reproduces it (`bitcount`), theorems C09Bit_bitcount_overcount / _right_without_segment_behind / _panics say exactly when and by how much; "
-                "the prescribed BITCOUNT (`bitcountSpec`) and a repaired iterator-based one (`bitcountFixed`) are proved equal to the GETBIT enumeration (every store / every well-formed store); after a repair of BitCountV2 the driver line `bitcount` -> `bitcountFixed` in lean/Driver/DataBit.lean (readCmd, binv) is the only change",
-                "bitmap: the size invariant (stored size >= end of every stored segment of the live generation) makes the whole-key BITCOUNT of the code right (C09Bit_bitcount_whole_key_right); it is proved established by the SETBIT that starts a generation and kept by every later SETBIT on the key and on other keys (C09Bit_sizeOK_setbit_self / _other, hypothesis: no legacy conversion, fresh generation = the proviso of the known finding generation = timestamp), NOT as a reachability theorem over all commands (BEXPIRE / BPERSIST / BITCLEAR steps are not proved); an EXPIRED meta hands its size on to the next generation (witness C08Bit_expired_size_survives_witness)",
-                "bitmap: SETBIT theorems carry the hypothesis `no legacy conversion` (live v2 bitmap, or no string under the name); the conversion is tied by the differential run and shown by witness (C08Bit_legacy_string_lost_witness: under the value-header layout the string's bits are lost)"]
+_BIT_PARTIAL = ["bitmap: the model follows the code after fixes 0ad0963 (an absent / expired bitmap starts with size 0) and d794a70 (the loop of BitCountV2 breaks behind the segment of `end`, an inverted cut is clamped); both are pinned by the translator (Gen.bitDeadSizeZero, Gen.bitCountBehind, Gen.bitCountInverted, statement order of the loop body); the model has no panic outcome; the former witnesses are regression examples (C09Bit_regression_*, C08Bit_expired_size_reset, C11_setbit_expired_over_string) and corpus files (corpus/C09, C10, C11 datacorebit-*.txt)",
+                "bitmap: the size invariant (stored size >= end of every stored segment of the live generation) is proved established by the SETBIT that starts a generation (from size 0: C08Bit_setbit_dead gives exactly the size of a never-used key) and kept by every later SETBIT on the key and on other keys (C09Bit_sizeOK_setbit_self / _other, hypothesis: no legacy conversion, fresh generation = the proviso of the known finding generation = timestamp), NOT as a reachability theorem over all commands (BEXPIRE / BPERSIST / BITCLEAR steps are not proved); no theorem depends on it any more (the repaired BITCOUNT is right in every well-formed store)",
+                "bitmap: SETBIT theorems carry the hypothesis `no legacy conversion` (live v2 bitmap, or no string under the name); the conversion is tied by the differential run and shown by witness (C08Bit_legacy_string_lost_witness: under the value-header layout the string's bits are lost - open finding, DESIGN section 0.3; C11_setbit_conversion_size_check_dead: its size check cannot fire)",
+                "bitmap: open finding outside the model domain: SETBIT with an EMPTY key part answers `invalid key size` after converting and deleting a string of that name (notes/probes/bitmap_findings.txt F-bit-4)"]
 CHECKS['C08']['trusted'] = CHECKS['C08']['trusted'] + _BIT_TRUST
 CHECKS['C09']['trusted'] = CHECKS['C09']['trusted'] + _BIT_TRUST
 CHECKS['C08']['partial'] = [x.replace('bitmap, HyperLogLog', 'HyperLogLog') for x in CHECKS['C08']['partial']] + _BIT_PARTIAL
 CHECKS['C09']['partial'] = CHECKS['C09']['partial'] + _BIT_PARTIAL[:2]
+CHECKS['C10']['partial'] = CHECKS['C10']['partial'] + [_BIT_PARTIAL[0]]
+CHECKS['C10']['trusted'] = CHECKS['C10']['trusted'] + _BIT_TRUST
 CHECKS['C08']['level_text'] = CHECKS['C08']['level_text'] + (" BITMAP (Props/C08Bit.lean over the executable model Data/BitExec.lean, both layouts, every decision expression regenerated in Gen/Bit.lean, tied by protocol datacorebit incl. the physical store after every apply event): "
-    "SETBIT on a live bitmap answers the bit GETBIT showed and afterwards GETBIT reads the new bit at that offset and the old bit at every other offset, at every read time before the expiry (C08Bit_setbit_live); on an absent or expired bitmap it answers 0 and starts an all-zero bitmap (C08Bit_setbit_dead, under the fresh-generation proviso); "
+    "SETBIT on a live bitmap answers the bit GETBIT showed and afterwards GETBIT reads the new bit at that offset and the old bit at every other offset, at every read time before the expiry (C08Bit_setbit_live); on an absent or expired bitmap it answers 0 and starts an all-zero bitmap whose size is the size a never-used key gets - nothing of the expired generation survives (C08Bit_setbit_dead, under the fresh-generation proviso; regression C08Bit_expired_size_reset, fix 0ad0963); "
     "no other bitmap key (GETBIT / BITCOUNT / BKEYEXIST / BTTL) and no key of another type changes (C08Bit_setbit_other_bitmaps / _other_types, over the codec separation of Props/C12Bit.lean); the argument guards (C08Bit_setbit_guards).")
 CHECKS['C09']['level_text'] = CHECKS['C09']['level_text'] + (" BITMAP (Props/C09Bit.lean): the prescribed BITCOUNT (point lookups) equals the number of offsets of the byte range whose GETBIT is 1 for the whole key and every start / end, in EVERY store (C09Bit_bitcountSpec_eq_enum); "
-    "a repaired iterator-based BITCOUNT equals it in every well-formed store, and well-formedness is preserved by every command (C09Bit_bitcountFixed_eq_enum, C09Bit_wf_reachable); BitCountV2 as it is answers that number PLUS the set bits of every stored segment behind the segment of `end`, "
-    "or panics (C09Bit_bitcount_overcount, C09Bit_bitcount_panics, witnesses by evaluation on reachable stores; the real code shows both: known findings).")
-CHECKS['C11']['level_text'] = CHECKS['C11']['level_text'] + " Bitmap: C11_setbit / bitclear / bexpire / bpersist_error_no_effect on the model of protocol datacorebit (both layouts); a Go panic of the apply path is exhibited (C11_setbit_panic_witness; known finding)."
+    "BitCountV2 as the code is (iterator from the start segment, break behind the segment of `end`, clamped cuts - fix d794a70, regenerated) answers exactly that in every well-formed store, well-formedness is preserved by every command, hence in every reachable store, and the outcome is always a number "
+    "(C09Bit_bitcount_eq_enum, C09Bit_wf_reachable, C09Bit_bitcount_eq_enum_reachable, C09Bit_cut_never_inverted; regression examples C09Bit_regression_behind_end / _short_start_segment for the two repaired defects).")
+CHECKS['C11']['level_text'] = CHECKS['C11']['level_text'] + " Bitmap: C11_setbit / bitclear / bexpire / bpersist_error_no_effect on the model of protocol datacorebit (both layouts); the model has no panic outcome: the apply-path panic of SETBIT over an expired bitmap and a string of the same name is repaired (fix 0ad0963; regression C11_setbit_expired_over_string; the size check of the conversion is dead: C11_setbit_conversion_size_check_dead)."
+CHECKS['C10']['level_text'] = CHECKS['C10']['level_text'] + " BITMAP (Props/C08Bit.lean, protocol datacorebit): an absent or expired bitmap without a string under its name reads all-zero (C08Bit_getbit_dead_zero, C09Bit_bitcount_dead_zero); a SETBIT on it answers 0 and starts a generation without expiry, all-zero but the new bit, of exactly the size a never-used key gets (C08Bit_setbit_dead, C08Bit_expired_size_reset; fix 0ad0963)."
 CHECKS['C12']['level_text'] = CHECKS['C12']['level_text'] + " Bitmap keys (Props/C12Bit.lean): segment keys injective in (table, versioned key, index), meta keys in (table, key), both type bytes apart from each other and from every other tuple, segment keys of a generation ordered by index below its stop key, iterator range isolation."
 
 # ---- C13: theorems for the KEY scans (ADVSCAN / ADVREVSCAN over one table of a multi-table store): Data/ScanKeyLemmas.lean,
